@@ -5,11 +5,11 @@ import (
 	"errors"
 	"net"
 	"sync/atomic"
+	"time"
 
 	"github.com/twmb/franz-go/pkg/kfake"
+	"github.com/twmb/franz-go/pkg/kgo"
 )
-
-type netConn = net.Conn
 
 func dialer(vnet *kfake.VirtualNetwork, refuse *atomic.Bool) func(ctx context.Context, network, addr string) (net.Conn, error) {
 	return func(ctx context.Context, network, addr string) (net.Conn, error) {
@@ -18,4 +18,30 @@ func dialer(vnet *kfake.VirtualNetwork, refuse *atomic.Bool) func(ctx context.Co
 		}
 		return vnet.DialContext(ctx, network, addr)
 	}
+}
+
+// slowPartitioner sleeps (virtual time) inside the user partitioner so that a Produce can be between its
+// closed-client check and buffering while Close runs.
+type slowPartitioner struct {
+	inner kgo.Partitioner
+	ms    *atomic.Int64
+}
+
+func (s slowPartitioner) ForTopic(t string) kgo.TopicPartitioner {
+	return slowTopicPartitioner{s.inner.ForTopic(t), s.ms}
+}
+
+type slowTopicPartitioner struct {
+	inner kgo.TopicPartitioner
+	ms    *atomic.Int64
+}
+
+func (s slowTopicPartitioner) RequiresConsistency(r *kgo.Record) bool {
+	return s.inner.RequiresConsistency(r)
+}
+func (s slowTopicPartitioner) Partition(r *kgo.Record, n int) int {
+	if d := s.ms.Load(); d > 0 {
+		time.Sleep(time.Duration(d) * time.Millisecond)
+	}
+	return s.inner.Partition(r, n)
 }
